@@ -1,5 +1,9 @@
-From DZ Require Import Base Swap_Ring.
+From DZ Require Import Base Generated Swap_Ring.
 Local Open Scope nat_scope.
+
+(* tie to the crate's current constant (Generated.v is rewritten from the compiled crate on every run) *)
+Lemma cap_is_generated : CAP = N.to_nat G_FILLS_CAPACITY /\ G_FILLS_REGISTRY_SIZE = (8 + 16 * G_FILLS_CAPACITY)%N.
+Proof. split; reflexivity. Qed.
 
 Lemma abs_length r : length (abs r) = count r.
 Proof. unfold abs. rewrite map_length, seq_length. reflexivity. Qed.
